@@ -299,17 +299,8 @@ def run(prog: Program, ctx: Ctx) -> None:  # noqa: PLR0912,PLR0915
         revived = any(isinstance(n, ast.Call) and dotted(n.func) == ann.split("|")[0].strip() and fname in unparse(n) for n in ast.walk(le.node)) and cn in ast.unparse(le.node)
         ctx.ob("R3", f"{cn}.{fname}", revived, f"{cn}.{fname} ({ann}) is revived as an enum by _load_expression" if revived else
                f"{cn}.{fname} is written as a string and never turned back into {ann}: identity comparisons on it fail after a reload", where(le))
-    jd = prog.function(f"{E}.json_decoder")
-    ok = any(isinstance(n, ast.Call) and dotted(n.func) == "Kind" for n in ast.walk(jd.node))
-    ctx.ob("R3", "Kind", ok, "the object kind string is revived as Kind to select the loader", where(jd))
-    lmap = prog.module(E).assigns.get("_loader_map")
-    keys = {unparse(k_).split(".")[-1] for k_ in lmap.keys} if isinstance(lmap, ast.Dict) else set()
-    kinds = {m for m, v in prog.cls("_griffe.enumerations.Kind").class_attrs.items() if isinstance(v, ast.Constant)}
-    ctx.ob("R3", "loader-map-total", keys == kinds, f"_loader_map has a loader for every Kind ({sorted(keys)} vs {sorted(kinds)})", f"{prog.module(E).relpath}:{getattr(lmap, 'lineno', 0)}")
-    if isinstance(lmap, ast.Dict):
-        for k_, v_ in zip(lmap.keys, lmap.values):
-            kn = unparse(k_).split(".")[-1].lower()
-            ctx.ob("R3", f"loader-map|{kn}", unparse(v_) == f"_load_{kn}", f"Kind.{kn.upper()} is decoded by {unparse(v_)}", f"{prog.module(E).relpath}:{k_.lineno}")
+    # (that the kind string selects the loader of that kind - every Kind, none cross-wired - is decided by the `dispatch|...` rows of R5: the decoder
+    # evaluated on a dictionary of each kind; the table the loaders sit in is private and may be named and shaped anyhow)
 
     # ------------------------------------------------------------------ R4
     ctx.rule("R4", "expressions: the writer emits every dataclass field except `parent` plus `cls`; the reader pops `cls`, instantiates that class "
@@ -367,8 +358,9 @@ def run(prog: Program, ctx: Ctx) -> None:  # noqa: PLR0912,PLR0915
     # ------------------------------------------------------------------ R5
     ctx.rule("R5", "sets are encoded sorted; JSONEncoder.default uses as_dict(full=self.full); as_json and both arms of the CLI dump serialise "
                    "through JSONEncoder with the requested `full`; an alias serialises its own target_path; the decoder tests `cls` before `kind`")
-    emap = prog.module(E).assigns.get("_json_encoder_map")
-    ok = isinstance(emap, ast.Dict) and any(unparse(k_) == "set" and unparse(v_) == "sorted" for k_, v_ in zip(emap.keys, emap.values))
+    # (the fallback table of the encoder, whatever it is called: a module-level mapping from `set` to `sorted`)
+    emap = next((v_ for v_ in prog.module(E).assigns.values() if isinstance(v_, ast.Dict) and any(unparse(k_) == "set" for k_ in v_.keys if k_ is not None)), None)
+    ok = isinstance(emap, ast.Dict) and any(k_ is not None and unparse(k_) == "set" and unparse(v_) == "sorted" for k_, v_ in zip(emap.keys, emap.values))
     ctx.ob("R5", "sets-sorted", ok, "sets (labels) are serialised in sorted order", f"{prog.module(E).relpath}:{getattr(emap, 'lineno', 0)}")
     dflt = prog.function(f"{E}.JSONEncoder.default")
     ok = any(isinstance(c.func, ast.Attribute) and c.func.attr == "as_dict" and unparse(kwarg(c, "full")) == "self.full" for c in calls_in(dflt.node))
@@ -444,6 +436,10 @@ def run(prog: Program, ctx: Ctx) -> None:  # noqa: PLR0912,PLR0915
         ("lambda parameter (cls + kind)", {"cls": "ExprParameter", "name": "p", "kind": "positional-only", "annotation": None, "default": None}, "ExprParameter"),
         ("parameter", {"name": "p", "kind": "positional or keyword", "annotation": None, "default": None}, "Parameter"),
         ("attribute", {"kind": "attribute", "name": "a", "lineno": 1, "endlineno": 1, "labels": [], "annotation": None, "value": None}, "Attribute"),
+        ("module", {"kind": "module", "name": "m", "filepath": "m.py", "labels": [], "members": {}}, "Module"),
+        ("class", {"kind": "class", "name": "K", "lineno": 1, "endlineno": 2, "labels": [], "members": {}, "bases": [], "decorators": []}, "Class"),
+        ("function", {"kind": "function", "name": "f", "lineno": 1, "endlineno": 2, "labels": [], "parameters": [], "returns": None, "decorators": []}, "Function"),
+        ("alias", {"kind": "alias", "name": "a", "target_path": "os.path", "lineno": 1, "endlineno": 1}, "Alias"),
         ("plain mapping", {"anything": 1}, None),
     ):
         try:
